@@ -15,7 +15,7 @@ sys.path.insert(0, REPO)
 sys.path.insert(0, os.path.dirname(os.path.abspath(__file__)))
 
 import pool  # noqa: E402
-from pool import Fault, NotAVertex, VCLS, LCLS, VCLS_NAME, LCLS_NAME  # noqa: E402
+from pool import Fault, StopFault, NotAVertex, VCLS, LCLS, VCLS_NAME, LCLS_NAME  # noqa: E402
 from edgegraph.structure import Vertex, Universe  # noqa: E402
 from edgegraph.structure.universe import UniverseLaws  # noqa: E402
 from edgegraph.traversal import helpers, breadthfirst, depthfirst  # noqa: E402
@@ -24,7 +24,7 @@ from edgegraph.builder import explicit  # noqa: E402
 ERRNAMES = {
     TypeError: "TypeError", IndexError: "IndexError", AttributeError: "AttributeError",
     ValueError: "ValueError", NotImplementedError: "NotImplementedError", KeyError: "KeyError",
-    Fault: "Fault", AssertionError: "AssertionError", RecursionError: "RecursionError",
+    Fault: "Fault", StopFault: "Fault", AssertionError: "AssertionError", RecursionError: "RecursionError",
 }
 
 # value classes for user attributes: id -> representatives that are all == to each other
@@ -143,7 +143,9 @@ class TableFilter:
     def __call__(self, *args):
         self.count += 1
         if self.fault_at is not None and self.count == self.fault_at:
-            raise Fault()
+            # every other fault index raises a StopIteration (only neighbors() / find_links() are called with
+            # faults through the protocol: plain functions, through which it must propagate like any exception)
+            raise (StopFault if self.fault_at % 2 == 0 else Fault)()
         link = args[0]
         x = args[1] if len(args) > 1 else None
         code = 0 if x is None else self.ad.vname(x) + 1
@@ -1035,7 +1037,8 @@ class Real:
             from edgegraph.builder import adjmatrix
             vs = [] if toks[2] == "." else [self.pv(v) for v in toks[2].split(",")]
             # arbitrary truthy / falsy cell values
-            truthy, falsy = [1, True, 2, "x", [0], 0.5], [0, False, "", [], None, 0.0]
+            # (float('nan') is truthy although it is not equal to itself)
+            truthy, falsy = [1, True, 2, "x", [0], float("nan")], [0, False, "", [], None, 0.0]
             matrix = []
             if toks[3] != ".":
                 for i, r in enumerate(toks[3].split("/")):
